@@ -454,6 +454,21 @@ theorem steps_invU {a b : State} (h : Steps a b) (ha : InvU a) : InvU b := by
 
 theorem steps_inv {a b : State} (h : Steps a b) (ha : InvU a) : Inv b := (steps_invU h ha).inv
 
+theorem steps_len {a b : State} (h : Steps a b) (ha : InvU a) :
+    b.streams.length = a.streams.length ∧ b.cfg = a.cfg := by
+  induction h with
+  | refl => exact ⟨rfl, rfl⟩
+  | same _ hs ih => exact ⟨hs.len.trans ih.1, hs.cfg.trans ih.2⟩
+  | createAll d n hab _ ih =>
+    obtain ⟨_, h2, h3, _, _⟩ := createAll_keeps _ d n (steps_inv hab ha)
+    exact ⟨h3.trans ih.1, h2.trans ih.2⟩
+  | rotP si d hab ih =>
+    have k := rotP_keeps _ si d true rfl (steps_inv hab ha)
+    exact ⟨k.len.trans ih.1, k.cfg.trans ih.2⟩
+  | rotS si d n f hab ih =>
+    have k := rotS_keeps _ si d n f (steps_inv hab ha)
+    exact ⟨k.len.trans ih.1, k.cfg.trans ih.2⟩
+
 /-! ## the initial state -/
 
 theorem start_shape (cfg0 : Cfg) (st0 : State) (hll : cfg0.variant = .ll) (h : start cfg0 = .ok st0) :
